@@ -25,7 +25,6 @@ ufunc escPathOf(u int) string
 func buildCanonicalURI(u *url.URL) (uri string)
   flag ascii
   flag allocates
-  flag frame=unchecked
   requires u != nil
   modifies gEncoded
   ensures the-signed-path-is-the-escaped-path: len(u.Opaque) == 0 && escPathOf(ref(u)) != "" ==> gEncoded == escPathOf(ref(u))
